@@ -113,18 +113,13 @@ Theorem reader_sticky : forall H cfg S (rd : N -> S -> bytes * err * S) fuel st 
 Proof. exact vr_sticky. Qed.
 Print Assumptions reader_sticky.
 
-(** * The exported constructors.  Full statement, for both stream
-    constructors [C] in {cas_chunk_reader, cas_reader}, every script, digest,
-    hash function, method and parameter:
-
-      forall m o, m <> MDiscard -> C ... m = o -> completed m (o_err o) = true ->
-        valid_script H cfg evs /\ o_data o = expected_slice m (fst (content evs))
-
-    Proved in full for NewCASBufferFromChunkReader and NewCASBufferFromByteSlice;
-    for NewCASBufferFromReader proved for ToByteSlice, IntoWriter, ToReader (any read
-    sizes) and CloneCopy; its ReadAt and ToChunkReader (io.CopyN / io.ReadFull loops
-    around the validated reader) rest on the validator theorems above plus the
-    correspondence check. *)
+(** * The exported constructors: for both stream constructors, every script
+    (chunkings, empty chunks, short reads, early EOF, trailing data, errors
+    anywhere, EOF/error attached to data or not), every digest and hash
+    function, every method but Discard and every parameter (offset, chunk
+    size, read sizes, buffer length): the call/stream completes only if the
+    script's content ends with EOF and has the digest's size and hash, and the
+    consumer then holds exactly the expected slice of it. *)
 Theorem chunk_reader_buffer_complete_implies_valid : forall H cfg fuel evs m o,
   m <> MDiscard ->
   cas_chunk_reader H cfg fuel evs m = o -> completed m (o_err o) = true ->
@@ -132,12 +127,12 @@ Theorem chunk_reader_buffer_complete_implies_valid : forall H cfg fuel evs m o,
 Proof. exact chunk_reader_complete_implies_valid. Qed.
 Print Assumptions chunk_reader_buffer_complete_implies_valid.
 
-Theorem reader_buffer_complete_implies_valid_partial : forall H cfg fuel evs attach m o,
-  match m with MToByteSlice _ | MIntoWriter | MCloneCopy _ | MToReader _ _ => True | _ => False end ->
+Theorem reader_buffer_complete_implies_valid : forall H cfg fuel evs attach m o,
+  m <> MDiscard ->
   cas_reader H cfg fuel evs attach m = o -> completed m (o_err o) = true ->
   valid_script H cfg evs /\ o_data o = expected_slice m (fst (content evs)).
-Proof. exact reader_complete_implies_valid_partial. Qed.
-Print Assumptions reader_buffer_complete_implies_valid_partial.
+Proof. exact reader_complete_implies_valid. Qed.
+Print Assumptions reader_buffer_complete_implies_valid.
 
 (** NewCASBufferFromByteSlice: every method. *)
 Theorem byte_slice_buffer_complete_implies_valid : forall H cfg fuel data m,
